@@ -1,6 +1,6 @@
 (* Proofs/MultiParts.v — lemmas behind Props/C11.v *)
-From CV Require Import Base.Str Base.Utf8 Model.Common Model.MultiParts.
-From Coq Require Import Lia.
+From CV Require Import Base.Str Base.Utf8 Base.SortPerm Model.Common Model.MultiParts.
+From Coq Require Import Lia Permutation.
 Local Open Scope nat_scope.
 
 (* ------------------------------------------------------------------ index *)
@@ -363,7 +363,7 @@ Proof. split; [constructor|]. split; [intros ? ? []|intros ? []]. Qed.
 
 Lemma to_multiparts_inv ci ds vals cv out ns :
   to_multiparts ci ds vals cv = Some (out, ns) ->
-  exists m, out = map snd m /\ map_inv ci ds cv (length (tokenize ds cv)) vals m.
+  exists m, out = isort_by (fun a b => str_ltb (value a) (value b)) (map snd m) /\ map_inv ci ds cv (length (tokenize ds cv)) vals m.
 Proof.
   unfold to_multiparts. intro H.
   destruct (fold_left _ vals (Some [])) as [m|] eqn:E; [|discriminate]. injection H as <- _.
@@ -406,7 +406,7 @@ Lemma mp_sound ci ds vals cv out ns :
                         value r = concat (firstn k (tokenize ds (value val))).
 Proof.
   intros Hds H r Hin. destruct (to_multiparts_inv _ _ _ _ _ _ H) as (m & -> & (_ & Hs & _)).
-  apply in_map_iff in Hin as ([k r0] & <- & Hin). simpl.
+  rewrite isort_In in Hin. apply in_map_iff in Hin as ([k r0] & <- & Hin). simpl.
   destruct (Hs k r0 Hin) as [_ (val & Hv & (Hm & Hn & Hval & _))].
   exists val. repeat split; try assumption.
   - rewrite Hval. rewrite <- (tokenize_concat ds (value val) Hds) at 1. apply concat_firstn_prefix.
@@ -422,9 +422,10 @@ Lemma mp_complete_unique ci ds vals cv out ns :
 Proof.
   intro H. destruct (to_multiparts_inv _ _ _ _ _ _ H) as (m & -> & Hinv).
   pose proof (keys_are_values _ _ _ _ _ _ Hinv) as Hk. destruct Hinv as (Hnd & Hs & Hc). split.
-  - rewrite Hk. exact Hnd.
+  - apply (Permutation_NoDup (l := map value (map snd m))); [apply Permutation_map, Permutation_sym, isort_perm|].
+    rewrite Hk. exact Hnd.
   - intros val Hv Hm Hl. specialize (Hc val Hv Hm Hl). apply in_map_iff in Hc as ([k r] & Hkr & Hin).
-    simpl in Hkr. subst k. exists r. split; [apply in_map_iff; exists (concat (firstn (length (tokenize ds cv)) (tokenize ds (value val))), r); split; [reflexivity|exact Hin]|].
+    simpl in Hkr. subst k. exists r. split; [rewrite isort_In; apply in_map_iff; exists (concat (firstn (length (tokenize ds cv)) (tokenize ds (value val))), r); split; [reflexivity|exact Hin]|].
     destruct (Hs _ _ Hin) as [E _]. symmetry. exact E.
 Qed.
 
@@ -433,7 +434,7 @@ Lemma mp_final_step ci ds vals cv out ns :
   forall r, In r out -> exists val, In val vals /\ from_val ci ds cv (length (tokenize ds cv)) val r.
 Proof.
   intros H r Hin. destruct (to_multiparts_inv _ _ _ _ _ _ H) as (m & -> & (_ & Hs & _)).
-  apply in_map_iff in Hin as ([k r0] & <- & Hin). destruct (Hs k r0 Hin) as [_ Hx]. exact Hx.
+  rewrite isort_In in Hin. apply in_map_iff in Hin as ([k r0] & <- & Hin). destruct (Hs k r0 Hin) as [_ Hx]. exact Hx.
 Qed.
 
 Lemma mp_total ci ds vals cv : nonempty_all ds -> to_multiparts ci ds vals cv <> None.
